@@ -30,18 +30,24 @@ pub enum KOp {
     Sync,
     /// Replica variant only: GC pass on the replica.
     ReplicaGc,
+    /// Replica variant only: the replica is handed the owner's full current state through the
+    /// external catch-up entry point.
+    ReplicaCatchUp,
 }
 
-pub fn advance_amount(kind: u8) -> u64 {
+pub fn advance_amount(kind: u8, grace_ns: u64) -> u64 {
     match kind {
         0 => 0,
-        1 => GRACE_NS - 1,
-        2 => GRACE_NS,
-        3 => GRACE_NS + 1,
+        1 => grace_ns.saturating_sub(1),
+        2 => grace_ns,
+        3 => grace_ns + 1,
         4 => 1_000_000_000,
         _ => 1,
     }
 }
+
+/// Grace periods: the default 10 s plus values with a sub-second part, below one second, tiny and zero.
+pub const GRACES_NS: [u64; 6] = [GRACE_NS, 1_500_000_000, 400_000_000, 2_000_000_001, 1, 0];
 
 /// The 16-op alphabet enumerated exhaustively.
 pub const ALPHABET: [KOp; 16] = [
@@ -248,6 +254,9 @@ fn compare_reads(ns: &NodeState, m: &Model, who: &str) -> Result<(), String> {
 pub struct KvCase {
     pub ops: Vec<KOp>,
     pub replica: bool,
+    /// Index into `GRACES_NS` (0 = 10 s).
+    #[serde(default)]
+    pub grace: u8,
 }
 
 fn fail(sig: &str, msg: String, step: usize, op: KOp) -> Failure {
@@ -287,11 +296,12 @@ pub fn exec_kv(case: &KvCase, tally: &mut Tally, prop: &str) -> Result<(), Failu
     let sig_prefix = if prop == "C04" { "C04/local" } else { "C06" };
     with_paused_runtime(async {
         let fd = FdCfg::default();
+        let grace_ns = GRACES_NS[case.grace as usize % GRACES_NS.len()];
         let owner_id = simple_id("owner", 0, 7001);
-        let mut owner = build_node(&owner_id, "c", Duration::from_nanos(GRACE_NS), &fd, false, 0).chitchat;
+        let mut owner = build_node(&owner_id, "c", Duration::from_nanos(grace_ns), &fd, false, 0).chitchat;
         let mut replica: Option<Chitchat> = if case.replica {
             let id = simple_id("replica", 0, 7002);
-            Some(build_node(&id, "c", Duration::from_nanos(GRACE_NS), &fd, false, 0).chitchat)
+            Some(build_node(&id, "c", Duration::from_nanos(grace_ns), &fd, false, 0).chitchat)
         } else {
             None
         };
@@ -334,7 +344,7 @@ pub fn exec_kv(case: &KvCase, tally: &mut Tally, prop: &str) -> Result<(), Failu
                     }
                 }
                 KOp::Advance(kind) => {
-                    let ns = advance_amount(kind);
+                    let ns = advance_amount(kind, grace_ns);
                     advance_ns(ns).await;
                     now_ns += ns as u128;
                 }
@@ -343,7 +353,7 @@ pub fn exec_kv(case: &KvCase, tally: &mut Tally, prop: &str) -> Result<(), Failu
                     if let Err(p) = guard(|| owner.verif_gc_keys_marked_for_deletion()) {
                         return Err(fail(&format!("{sig_prefix}/{}", p.signature()), p.describe(), step, op));
                     }
-                    let collected = m.gc_pass(now_ns, GRACE_NS as u128);
+                    let collected = m.gc_pass(now_ns, grace_ns as u128);
                     if collected > 0 && had_marked > collected {
                         collected_with_survivor = true;
                     }
@@ -374,12 +384,46 @@ pub fn exec_kv(case: &KvCase, tally: &mut Tally, prop: &str) -> Result<(), Failu
                         }
                     }
                 }
+                KOp::ReplicaCatchUp => {
+                    if let Some(r) = replica.as_mut() {
+                        let snapshot: Vec<(String, chitchat::VersionedValue)> = owner.self_node_state().key_values_including_deleted().map(|(k, vv)| (k.to_string(), vv.clone())).collect();
+                        let (omax, ogc) = (m.max, m.gc);
+                        if let Err(p) = guard(|| r.reset_node_state_if_update(&owner_id, snapshot.into_iter(), omax, ogc)) {
+                            // never-panics is C18's statement
+                            tally.discard(&format!("catch-up panicked: {}", p.signature()));
+                            return Ok(());
+                        }
+                        // Model: applied only if the supplied max is above the replica's and not
+                        // below its watermark; the key set becomes the supplied one, an entry the
+                        // replica already holds at the same or a higher version is kept as it is
+                        // (including the instant its grace period is counted from); new entries
+                        // carry the instants of the supplied values.
+                        if rm.max < omax && omax >= rm.gc {
+                            let mut next: BTreeMap<String, MEntry> = BTreeMap::new();
+                            for (k, e) in &m.map {
+                                match rm.map.get(k) {
+                                    Some(old) if old.version >= e.version => {
+                                        next.insert(k.clone(), old.clone());
+                                    }
+                                    _ => {
+                                        next.insert(k.clone(), e.clone());
+                                    }
+                                }
+                            }
+                            rm.map = next;
+                            rm.gc = rm.gc.max(ogc);
+                            rm.max = omax.max(rm.max);
+                            tally.label("replica_catch_up_applied");
+                            replica_reset_or_gc = true;
+                        }
+                    }
+                }
                 KOp::ReplicaGc => {
                     if let Some(r) = replica.as_mut() {
                         if let Err(p) = guard(|| r.verif_gc_keys_marked_for_deletion()) {
                             return Err(fail(&format!("{sig_prefix}/{}", p.signature()), p.describe(), step, op));
                         }
-                        if rm.gc_pass(now_ns, GRACE_NS as u128) > 0 {
+                        if rm.gc_pass(now_ns, grace_ns as u128) > 0 {
                             replica_reset_or_gc = true;
                             tally.label("replica_gc_collected");
                         }
@@ -428,12 +472,13 @@ fn kop_strategy(replica: bool) -> BoxedStrategy<KOp> {
     if replica {
         options.push((5, Just(KOp::Sync).boxed()));
         options.push((3, Just(KOp::ReplicaGc).boxed()));
+        options.push((2, Just(KOp::ReplicaCatchUp).boxed()));
     }
     proptest::strategy::Union::new_weighted(options).boxed()
 }
 
 pub fn kv_case_strategy(max_len: usize, replica: bool) -> impl Strategy<Value = KvCase> {
-    proptest::collection::vec(kop_strategy(replica), 1..=max_len).prop_map(move |ops| KvCase { ops, replica })
+    (proptest::collection::vec(kop_strategy(replica), 1..=max_len), prop_oneof![3 => Just(0u8), 3 => 1u8..6]).prop_map(move |(ops, grace)| KvCase { ops, replica, grace })
 }
 
 /// Decodes index `idx` of the enumeration of all sequences of length 1..=max_len.
@@ -464,12 +509,20 @@ pub fn run(ctx: &Ctx, report: &mut Report, prop: &'static str) {
     let max_len = ctx.tier.pick(5, 6);
     let total = ((total_sequences(max_len) as f64) * ctx.scale.min(1.0)) as u64;
     let mut sub = run_enumeration(ctx, "exhaustive-sequences", total, |idx, tally| {
-        let case = KvCase { ops: nth_sequence(idx, max_len), replica: false };
+        let case = KvCase { ops: nth_sequence(idx, max_len), replica: false, grace: 0 };
         exec_kv(&case, tally, prop).map_err(|f| (f, serde_json::to_value(&case).unwrap()))
     });
     sub.exhaustive = ctx.scale >= 1.0;
     sub.scope = format!("all sequences of length 1..={max_len} over the 16-op alphabet {:?}", ALPHABET);
     report.push(sub);
+    let total_b = ((total_sequences(4) as f64) * ctx.scale.min(1.0)) as u64;
+    let mut sub_b = run_enumeration(ctx, "exhaustive-sequences-fractional-grace", total_b, |idx, tally| {
+        let case = KvCase { ops: nth_sequence(idx, 4), replica: false, grace: 1 };
+        exec_kv(&case, tally, prop).map_err(|f| (f, serde_json::to_value(&case).unwrap()))
+    });
+    sub_b.exhaustive = ctx.scale >= 1.0;
+    sub_b.scope = "all sequences of length 1..=4 over the same alphabet with a grace period of 1.5 s".into();
+    report.push(sub_b);
     report.push(run_proptest(ctx, "random-owner", ctx.cases(200_000, 5_000_000), 4000, || kv_case_strategy(40, false), |c, t| exec_kv(c, t, prop)));
     report.push(run_proptest(ctx, "random-replica", ctx.cases(100_000, 2_500_000), 4000, || kv_case_strategy(40, true), |c, t| exec_kv(c, t, prop)));
 }
